@@ -76,8 +76,11 @@ func buildVerifier(c vcfg) (fullVerifier, error) {
 	if c.identities == nil {
 		c.identities = []string{"*"}
 	}
+	if c.level == "skip" {
+		c.stores, c.identities, c.override = nil, nil, nil // a skip statement carries neither
+	}
 	st := world.Statement("p", c.level, c.override, c.stores, c.identities, c.scopes)
-	bst := world.BlobStatement("bp", c.level, c.override, c.stores, c.identities, true)
+	bst := world.BlobStatement("bp", c.level, c.override, c.stores, c.identities, c.level != "skip")
 	if c.verifyTimestamp != "" {
 		st.SignatureVerification.VerifyTimestamp = trustpolicyOption(c.verifyTimestamp)
 		bst.SignatureVerification.VerifyTimestamp = trustpolicyOption(c.verifyTimestamp)
